@@ -82,6 +82,15 @@ func rulesC06(w *World, r *Report) {
 		}
 		r.Check(v == want, "C06.R1", "const:"+name, "header.go", fmt.Sprintf("%s = %d", name, want), fmt.Sprintf("%s = %d, the Whisper format requires %d", name, v, want))
 	}
+	// the codes of the aggregation methods are part of the format: the reference reader gives 4 the meaning max, 5 min
+	for name, want := range map[string]int64{"Average": 1, "Sum": 2, "Last": 3, "Max": 4, "Min": 5, "First": 6} {
+		v, ok := constValue(w, name)
+		if !ok {
+			r.Undecided("C06.R1", "const:"+name, "-", "constant not found")
+			continue
+		}
+		r.Check(v == want, "C06.R1", "const:"+name, "aggregationmethod.go", fmt.Sprintf("%s = %d", name, want), fmt.Sprintf("the aggregation method %s is written as %d; in the Whisper format (and for the reference reader) it is %d, so a file of one implementation is aggregated with another method by the other", name, v, want))
+	}
 	ce := newCodecEngine(w)
 	offF, stepF, ptsF := archiveInfoRoles(w)
 	r.Rule("C06.R2", "format table (E-codec): Header.AppendTo emits BE u32 aggregation method @0, Duration max retention @4, BE u32 Float32bits(xFilesFactor) @8, BE u32 archive count @12, then one ArchiveInfo per archive from @16 in 12-byte steps; ArchiveInfo: BE u32 offset @0, Duration step @4, BE u32 points @8; Point: Timestamp @0, Value @4; Value: BE u64 Float64bits; Timestamp, Duration: BE u32", 6)
@@ -291,15 +300,23 @@ func rulesC06(w *World, r *Report) {
 	if nh := need(w, r, "C06.R5", w.Lib, "NewHeader"); nh != nil {
 		okMR := false
 		got := ""
+		list := "p2"
+		eachInstr(nh, func(in ssa.Instruction) {
+			if st, ok := in.(*ssa.Store); ok {
+				if _, fname, ok := fieldAddrOf(st.Addr); ok && fname == "archiveInfoList" {
+					list = newExprCtx(w).expr(st.Val)
+				}
+			}
+		})
 		eachInstr(nh, func(in ssa.Instruction) {
 			if st, ok := in.(*ssa.Store); ok {
 				if _, fname, ok := fieldAddrOf(st.Addr); ok && fname == "maxRetention" {
 					got = newExprCtx(w).expr(st.Val)
-					okMR = got == "whispertool.ArchiveInfo.MaxRetention(p2[(len(p2) - 1)])"
+					okMR = got == "whispertool.ArchiveInfo.MaxRetention("+list+"[(len("+list+") - 1)])"
 				}
 			}
 		})
-		r.Check(okMR, "C06.R5", "NewHeader:maxRetention", w.pos(nh.Pos()), "max retention = retention of the coarsest (last) archive", "the header's max retention is "+got+", not the last archive's retention")
+		r.Check(okMR, "C06.R5", "NewHeader:maxRetention", w.pos(nh.Pos()), "max retention = retention of the last archive of the list the header stores", "the header's max retention is "+got+", not the retention of the last archive of the list it stores ("+list+")")
 	}
 
 	// ---- R6 slot placement
